@@ -23,6 +23,7 @@ def run(chk):
         broken.append("proof obligations of Props/C01.v do not check: " + plog[-800:])
     g = evalgen.Gen(chk.rng)
     g.wild = 0.12
+    g.entry_updates = True
     n = 40000 if thorough else 3600
     cases = []
     for i in range(n):
@@ -30,6 +31,14 @@ def run(chk):
         doc = evalgen.gen_doc(chk.rng)
         g.set_doc(doc)          # selectors mostly follow the document, so most programs do not die at the first step
         cases.append((g.expr(d), doc))
+    # directed: integers that only differ beyond binary64 precision, at the int64 edges, in every comparison
+    big = [9007199254740993, 9007199254740992, 9007199254740991, -9007199254740993, 9223372036854775807, 9223372036854775806,
+           -9223372036854775808, -9223372036854775807]
+    for op in ("lt", "le", "gt", "ge", "eq", "ne"):
+        for a in big:
+            for b in big:
+                if (a, b) in ((big[0], big[1]), (big[1], big[0]), (big[0], big[0]), (big[4], big[5]), (big[5], big[4]), (big[6], big[7]), (big[7], big[6]), (big[3], big[0])) or chk.rng.random() < 0.1:
+                    cases.append(((op, evalgen.lit(a), evalgen.lit(b)), None))
     impl, mism, err = run_cases(chk, cases, "c01_cases")
     stats = collections.Counter()
     opsh = collections.Counter()
